@@ -15,7 +15,10 @@ HARNESS = os.path.join(ROOT, "harness")
 BIN = os.path.join(HARNESS, "bin")
 EVID = os.path.join(ROOT, "evidence")
 REPLAYS = os.path.join(EVID, "replays")
-REPO = os.environ.get("VERIF_REPO", "/repo")
+REPO = os.path.realpath(os.environ.get("VERIF_REPO", "/repo"))
+if REPO != "/repo":   # self-test run against a scratch tree: never touch the real evidence
+    EVID = os.path.join("/tmp/verif-alt-evidence", hashlib.sha1(REPO.encode()).hexdigest()[:8])
+    REPLAYS = os.path.join(EVID, "replays")
 TLA_CP = "/opt/veriftools/tla/tla2tools.jar:/opt/veriftools/tla/CommunityModules-deps.jar"
 NCPU = os.cpu_count() or 4
 
@@ -37,23 +40,38 @@ def log(*a):
 # --------------------------------------------------------------------------
 # Go harness
 # --------------------------------------------------------------------------
-def sync_gosum():
-    """harness/go.sum must contain /repo/go.sum's lines (offline: no sumdb); add what is missing."""
+def _modfile():
+    """go.mod/go.sum used for the build.  Default: harness/go.mod (replace => /repo).  With VERIF_REPO set to
+    a scratch worktree (mutant self-tests, never /repo itself) an alternate modfile is generated so that
+    concurrent runs against different trees do not interfere."""
     hp = os.path.join(HARNESS, "go.sum")
     have = open(hp).read().splitlines() if os.path.exists(hp) else []
     s = set(have)
     add = [l for l in open(os.path.join(REPO, "go.sum")).read().splitlines() if l and l not in s]
-    if add:
-        with open(hp, "w") as f:
-            f.write("\n".join(have + add) + "\n")
+    if REPO == "/repo":
+        if add:
+            with open(hp, "w") as f:
+                f.write("\n".join(have + add) + "\n")
+        return None, BIN
+    tag = hashlib.sha1(REPO.encode()).hexdigest()[:8]
+    d = os.path.join(HARNESS, "bin", "alt-" + tag)
+    os.makedirs(d, exist_ok=True)
+    mod = open(os.path.join(HARNESS, "go.mod")).read().replace("=> /repo", "=> " + REPO)
+    with open(os.path.join(d, "go.mod"), "w") as f:
+        f.write(mod)
+    with open(os.path.join(d, "go.sum"), "w") as f:
+        f.write("\n".join(have + add) + "\n")
+    return os.path.join(d, "go.mod"), d
 
 
 def go_build(name, race=False, tags="verif"):
-    """Build harness/cmd/<name> against /repo's current working tree."""
+    """Build harness/cmd/<name> against the current working tree of /repo (or $VERIF_REPO)."""
     os.makedirs(BIN, exist_ok=True)
-    sync_gosum()
-    out = os.path.join(BIN, name + ("-race" if race else ""))
+    modfile, bindir = _modfile()
+    out = os.path.join(bindir, name + ("-race" if race else ""))
     cmd = ["go", "build", "-tags", tags, "-o", out]
+    if modfile:
+        cmd.append("-modfile=" + modfile)
     if race:
         cmd.append("-race")
     cmd.append("./cmd/" + name)
